@@ -39,6 +39,7 @@ def gen_cases(tier, seed):
                 g['ew'] = {'ew_': gen.weights(r, len(g['edges']), 'nondyadic')}
                 g['nw'] = {'nw_': gen.weights(r, g['n'], 'dyadic')}
             c['graph'] = g
+            c.pop('prehistory', None)
             k2 = len(c['spec']['statuses'])
             c['IC'] = [r.randrange(k2) for _ in range(g['n'])]
         out.append(c)
